@@ -2378,6 +2378,12 @@ func (h *Hub) processInternalMsg(sess Session, message *ClientMessage) {
 		}
 
 		h.mu.Lock()
+		// A virtual session with the same id is replaced, otherwise the previous
+		// session could no longer be addressed (and removed) by the client.
+		var prev Session
+		if prevSid, found := h.virtualSessions[virtualSessionId]; found {
+			prev = h.sessions[prevSid]
+		}
 		h.sessions[sessionIdData.Sid] = sess
 		h.virtualSessions[virtualSessionId] = sessionIdData.Sid
 		h.mu.Unlock()
@@ -2387,6 +2393,12 @@ func (h *Hub) processInternalMsg(sess Session, message *ClientMessage) {
 		session.AddVirtualSession(sess)
 		sess.SetRoom(room)
 		room.AddSession(sess, nil)
+		if prev != nil {
+			// Close the replaced session after the new one joined, so the room
+			// does not get removed in between.
+			log.Printf("Session %s replaced virtual session %s by %s", session.PublicId(), prev.PublicId(), sess.PublicId())
+			prev.Close()
+		}
 	case "updatesession":
 		msg := msg.UpdateSession
 		room := h.GetRoomForBackend(msg.RoomId, session.Backend())
